@@ -3,6 +3,8 @@
 determinism: every seed is run in fresh interpreters under two different PYTHONHASHSEED
              values and at two worker counts; the per-seed run digests (ops + per-step
              result digests + statuses + verdicts) must be identical.
+neutral:     independently written behaviour-preserving changes (/verif/neutral) applied to a scratch copy; every check
+             that the changed files concern must stay quiet (specificity).
 mutants:     scripted source mutations applied to a scratch copy of /repo/src; the quick
              check of the property must report a VIOLATION (sensitivity).  See selftest/mutants.py.
 """
@@ -103,6 +105,10 @@ def main(sub: str, args) -> int:
         from selftest import mutants
 
         return mutants.main(args)
+    if sub == "neutral":
+        from selftest import mutants
+
+        return mutants.neutral_main(args)
     if sub == "all":
         rc = determinism(args)
         from selftest import mutants
